@@ -12,7 +12,7 @@ def consts(**kw):
         "Transports": "<- TStream", "Flavors": "<- BothFlavors", "Verifies": "<- GateBoth",
         "WritePolicy": '= "write_all"', "UdpPolicy": '= "buffered"', "PongPolicy": '= "cancel_safe"',
         "MaxErr": "= 0", "MaxPending": "= 0", "MaxCancel": "= 0", "MaxTimeout": "= 0",
-        "MaxWrites": "= 0", "WLens": "<- None", "FrameOK": "<- FrameAny", "KeepHist": "= TRUE",
+        "MaxWrites": "= 0", "WLens": "<- None", "FrameOK": "<- FrameAny", "KeepHist": "= TRUE", "MaxQueued": "= 2",
         "EmSmallFills": "= 3", "EmSizes": "<- S13458", "EmPong": "<- None", "EmWacc": "<- None",
     }
     c.update(kw)
@@ -243,15 +243,17 @@ def check_C19(chk):
     mc(chk, "c19_mut_inline", consts(MaxFrames="= 2", Classes="<- ClsUdp", Flavors="<- OnlyTokio", Verifies="<- GateOn",
                                      MaxPending="= 1", MaxCancel="= 1", PongPolicy='= "inline"'), expect_violation="PongsOk")
     nd, n = emit(chk, "c19_emit", consts(MaxFrames="= 2", Classes="<- ClsPong", Flavors="<- OnlyTokio", Verifies="<- GateOn",
-                                         MaxPending="= 1", MaxCancel="= 2", MaxTimeout="= 1", FrameOK="<- FrameReal",
-                                         EmSmallFills="= 1", EmSizes="<- S134", EmPong="<- S13"))
+                                         MaxPending="= 1", MaxCancel="= 2", MaxTimeout="= 1" if thorough else "= 0", FrameOK="<- FrameReal",
+                                         EmSmallFills="= 1", EmSizes="<- S134" if thorough else "<- S1", EmPong="<- S13" if thorough else "<- S1"),
+                 timeout=1500)
     replay(chk, nd, chk.seed)
     # a user write after a cancelled read must complete the interrupted reply first (no interleaved frames)
     mc(chk, "c19_cancel_write", consts(MaxFrames="= 2", Classes="<- ClsPong", Flavors="<- OnlyTokio", Verifies="<- GateOn",
                                        MaxPending="= 1", MaxCancel="= 2", MaxWrites="= 1", WLens="<- W4"), needs=("Cancel", "PongFinish"))
     nd, n = emit(chk, "c19_emit_w", consts(MaxFrames="= 1", Classes="<- ClsKa", Flavors="<- OnlyTokio", Verifies="<- GateOn",
                                            MaxPending="= 1", MaxCancel="= 1", MaxWrites="= 1", WLens="<- W8", FrameOK="<- FrameReal",
-                                           EmSmallFills="= 0", EmPong="<- S13", EmWacc="<- S13"))
+                                           EmSmallFills="= 0", EmPong="<- S13" if thorough else "<- S1", EmWacc="<- S13" if thorough else "<- None"),
+                 timeout=1500)
     replay(chk, nd, chk.seed + 1)
     for i in range(4 if thorough else 1):
         p, info = gen_trace(f"c19_trace{i}", chk.seed * 100 + i, sessions=8, frames=150, flavor="tokio", cancels=True, writes=True,
@@ -274,6 +276,15 @@ def replay_conn_case(case):
         for b in bad:
             print("MISMATCH:", b["mode"], b["mismatch"])
         return 1 if bad else 0
+    if case["kind"] == "net-replay":
+        os.makedirs(WORK, exist_ok=True)
+        nd = os.path.join(WORK, "replay_case.ndjson")
+        open(nd, "w").write(json.dumps(case["behaviour"]) + "\n")
+        out = harness(["net-replay", "--in", nd])
+        bad = [json.loads(l) for l in out.splitlines() if '"mismatch"' in l]
+        for b in bad:
+            print("MISMATCH:", b["mode"], b["mismatch"])
+        return 1 if bad else 0
     if case["kind"] == "conn-trace":
         os.makedirs(WORK, exist_ok=True)
         tp = os.path.join(WORK, "replay_case_trace.ndjson")
@@ -286,3 +297,81 @@ def replay_conn_case(case):
         print("accepted" if r.ok else f"rejected: {r.rejected}")
         return 0 if r.ok else 1
     return 2
+
+
+def net_replay(chk, nd, seed, stride=1):
+    """spec -> impl on real loopback sockets (udp / ws behaviours)."""
+    outp = nd + ".netreplay.out"
+    harness(["net-replay", "--in", nd, "--seed", str(seed), "--stride", str(stride)], stdout_path=outp, timeout=3000)
+    summary = None
+    with open(outp) as f:
+        for line in f:
+            v = json.loads(line)
+            if "summary" in v:
+                summary = v["summary"]
+            elif "mismatch" in v:
+                key = f"net-replay:{v['behaviour']['cfg']['transport']}:{v['flavor']}:" + norm_key(v["mismatch"])
+                chk.violation(key, v["mismatch"], {"kind": "net-replay", "mode": v["mode"], "behaviour": v["behaviour"]})
+    if summary is None:
+        raise ToolError("net-replay printed no summary")
+    chk.traces += summary["executed"] - summary["skipped"]
+    chk.extra.setdefault("replay", []).append(summary)
+    with open(nd) as f:
+        for i, line in enumerate(f):
+            b = json.loads(line)
+            chk.case(b)
+            if i < 2:
+                chk.sample({"behaviour": b})
+    log(f"[net-replay] {summary}")
+    return summary
+
+
+def gen_net_trace(name, transport, seed, sessions, nbytes, writes=True):
+    p = os.path.join(WORK, name + ".ndjson")
+    out = harness(["net-trace", "--transport", transport, "--out", p, "--seed", str(seed), "--sessions", str(sessions),
+                   "--bytes", str(nbytes), "--writes", "1" if writes else "0"], timeout=3000)
+    return p, json.loads(out.strip().splitlines()[-1])
+
+
+def check_C08(chk):
+    """UDP datagrams delivered intact for arbitrarily long sessions."""
+    thorough = chk.tier == "thorough"
+    chk.rule = ("TLC explores the buffered UDP adaptor under a receive buffer whose spare capacity shrinks below a datagram "
+                "(InOrder/NoLoss/BufferInv/UnitsOk); the 'direct' adaptor (datagram truncated to the offered slice) must fail. "
+                "Behaviours are replayed on real loopback UDP sockets with the blocking and tokio UdpStream; paced random "
+                "sessions (1..n packets per datagram, sizes 4..1020, traffic far beyond 6120 bytes) are recorded and every "
+                "result and every datagram observed by the peer is validated by Trace_Conn.")
+    mc(chk, "c08_udp", consts(Transports="<- TUdp", Classes="<- ClsUdp", Verifies="<- GateOn", MaxFrames="= 5" if thorough else "= 4",
+                              MaxErr="= 1", MaxWrites="= 1", WLens="<- W4"), needs=("DoPeerDgram2", "FillUdpBuffered"))
+    mc(chk, "c08_mut_direct", consts(Transports="<- TUdp", Classes="<- ClsUdp", Flavors="<- OnlyTokio", Verifies="<- GateOn",
+                                     MaxFrames="= 4", UdpPolicy='= "direct"'), expect_violation="NoLoss")
+    nd, n = emit(chk, "c08_emit", consts(Transports="<- TUdp", Classes="<- ClsPong", Verifies="<- GateOn", MaxFrames="= 3",
+                                         FrameOK="<- FrameReal", MaxWrites="= 1", WLens="<- W8"))
+    net_replay(chk, nd, chk.seed)
+    for i in range(3 if thorough else 1):
+        p, info = gen_net_trace(f"c08_trace{i}", "udp", chk.seed * 100 + i, sessions=4, nbytes=700000 if thorough else 15000)
+        if i == 0:
+            sample_trace(chk, p, 8)
+        trace_validate(chk, f"c08_tv{i}", p, "udp session")
+    chk.assumptions += ["loopback UDP with one datagram in flight (the sender is paced by the receiver); a read that does not complete in 1.5 s is recorded as a timeout"]
+
+
+def check_C20(chk):
+    """The WebSocket transport carries the same byte stream as TCP."""
+    thorough = chk.tier == "thorough"
+    chk.rule = ("TLC explores the ws adaptor: the relay's byte stream split into binary messages at arbitrary positions, "
+                "text / ping / empty messages interleaved, closure; same invariants as the stream transport plus one message "
+                "per written frame. Behaviours are replayed against a loopback tungstenite server with the real WebsocketStream "
+                "inside the real tokio Framed; random sessions (messages of 1 byte up to > 1020 bytes) are validated by Trace_Conn.")
+    mc(chk, "c20_ws", consts(Transports="<- TWs", Classes="<- ClsUdp", Flavors="<- OnlyTokio", Verifies="<- GateOn",
+                             MaxFrames="= 3" if thorough else "= 2", MaxWrites="= 1", WLens="<- W4"), timeout=3000,
+       needs=("PeerWsPack", "PeerWsOther", "FillWs", "FillEof"))
+    nd, n = emit(chk, "c20_emit", consts(Transports="<- TWs", Classes="<- ClsPong", Flavors="<- OnlyTokio", Verifies="<- GateOn",
+                                         MaxFrames="= 2", FrameOK="<- FrameReal", MaxWrites="= 0", EmSizes="<- S134", MaxQueued="= 1"))
+    net_replay(chk, nd, chk.seed, stride=1 if thorough else 6)
+    for i in range(3 if thorough else 1):
+        p, info = gen_net_trace(f"c20_trace{i}", "ws", chk.seed * 100 + i, sessions=4, nbytes=200000 if thorough else 12000)
+        if i == 0:
+            sample_trace(chk, p, 10)
+        trace_validate(chk, f"c20_tv{i}", p, "websocket session")
+    chk.assumptions += ["the relay is a loopback tokio-tungstenite server; the real relay (Internet) is not exercised"]
